@@ -352,6 +352,7 @@ func runC05(r *vf.Run) {
 			if !r.Want(hid) {
 				continue
 			}
+			rng := r.RNG(hid) // per-history stream
 			steps := 1 + rng.Intn(5)
 			for s := 0; s < steps; s++ {
 				mode := ix.OpenModes[(s+rng.Intn(2))%2]
